@@ -23,7 +23,11 @@ PROPS = {
         ],
     },
     "C04": {
-        "families": [{"name": "c04"}],
+        "families": [{"name": "c04"},
+                     # the sign_mut entry point (fast_verify builds) goes through the same callback protocol:
+                     # a refused message (short / non-zero trailer) must not reach the callback
+                     {"name": "c15", "config": "fv-t1-o200", "features": "fast_verify,verbose",
+                      "env": {"HBS_LMS_THREADS": "1", "HBS_LMS_MAX_HASH_OPTIMIZATIONS": "200"}}],
         "assumptions": [
             "theorem is about Model/SignCore.sign_core (order of effects for every blob/message/callback); tied to hss_sign_core by the correspondence over every failure point, comparing result class, signature bytes and the recorded callback invocations",
         ],
